@@ -119,9 +119,14 @@ class CvxpyPathTask(Task):
             expr = self.f(X)          # the real function on a cvxpy Variable
         except Exception as e:        # noqa: BLE001 - the variable path refuses what the numeric path accepts?
             xnum = self._generic_point(seed)
-            want = np.array(self.f(np.array(xnum)))   # numeric path on a matrix of the same shape and structure
             rec["disagreements_checked"] = 1
             rec["status"] = "violation"
+            try:
+                want = np.array(self.f(np.array(xnum)))   # numeric path on a matrix of the same shape and structure
+            except Exception as e2:   # noqa: BLE001 - the configuration is valid by construction: raising is itself the failure
+                rec["violation"] = {"source": "both the variable path and the numeric path raise on a valid configuration", "inputs": {"X": jsonable(xnum)},
+                                    "actual": f"{type(e).__name__}: {e}"[:300], "expected": "a value", "numeric_path": f"{type(e2).__name__}: {e2}"[:300]}
+                return
             rec["violation"] = {"source": "variable path raises", "inputs": {"X": jsonable(xnum)},
                                 "actual": f"{type(e).__name__}: {e}"[:300], "expected": jsonable(want)}
             return
@@ -136,9 +141,29 @@ class CvxpyPathTask(Task):
             paths, complete = explore(ctx, lambda: self.f(Xs), max_paths=4)
             p = paths[0]
             if p.exc is not None:
-                raise p.exc
-            rhs = p.result
-            cond = eq(np.asarray(lhs, dtype=object), np.asarray(rhs, dtype=object))
+                sym_exc = p.exc
+                break_out = True
+            else:
+                sym_exc, break_out = None, False
+            rhs = p.result if not break_out else None
+            if break_out:
+                cond = None
+            else:
+                cond = eq(np.asarray(lhs, dtype=object), np.asarray(rhs, dtype=object))
+        if break_out:
+            # the real function raised on the symbolic ndarray; does it raise on a plain ndarray of the same shape too, while the
+            # Variable path returned an expression?  Then the two paths disagree on a valid input (reproduced).
+            xnum = self._generic_point(seed)
+            try:
+                self.f(np.array(xnum))
+            except Exception as e2:  # noqa: BLE001
+                rec["disagreements_checked"] = 1
+                rec["status"] = "violation"
+                rec["violation"] = {"source": "numeric path raises where the variable path returns an expression", "inputs": {"X": jsonable(xnum)},
+                                    "actual": f"{type(e2).__name__}: {e2}"[:300], "expected": "value of the variable path"}
+                return
+            raise sym_exc
+        with use_ctx(ctx), symbolic_mode():
             cond = SymBool(cond) if not isinstance(cond, SymBool) else cond
             r, model = ctx.check(p.pc + [as_z3(~cond)])
             rec["paths"] = len(paths)
@@ -189,12 +214,14 @@ class CvxpyPathTask(Task):
         try:
             expr = self.f(X)
         except Exception:             # noqa: BLE001
-            self.f(np.array(from_jsonable(rp["violation"]["inputs"]["X"])))
             return False
         xnum = np.array(from_jsonable(rp["violation"]["inputs"]["X"]))
         X.value = xnum
         got = np.array(expr.value)
-        want = np.array(self.f(xnum))
+        try:
+            want = np.array(self.f(xnum))
+        except Exception:             # noqa: BLE001 - the numeric path raises where the variable path returns a value
+            return False
         return got.shape == want.shape and bool(np.allclose(got, want, atol=1e-7))
 
 
